@@ -41,3 +41,68 @@ Definition check_entropy_range (K : nat) (num den : positive) (slack : Q) (e : F
   | Some q => Qleb (- slack) q && Qleb q ((Zpos num # den) + slack)
   | None => F32.is_nan e
   end.
+
+(* the range clause applies to rows whose u32 sum does not overflow (the hypothesis of
+   row_entropy_bounds); rows with a total >= 2^32 panic in the dev profile and give a
+   meaningless value in release builds (notes/pwm.md, finding R3-2): compared with the model only *)
+Definition check_entropy_row (K : nat) (num den : positive) (slack : Q) (row : list N) (e : F32.t) : bool :=
+  if (fold_left N.add row 0 <? u32_mod)%N
+  then negb (F32.is_nan e) && check_entropy_range K num den slack e     (* never NaN: 0/0 terms are skipped by `p > 0.0` *)
+  else true.
+
+Definition check_entropy (K : nat) (num den : positive) (slack : Q) (m : list (list N)) (es : list F32.t) : bool :=
+  (length m =? length es) && forallb (fun b => b) (map2 (check_entropy_row K num den slack) m es).
+
+(* auto_correlation of a count matrix of period [delay] without an all-zero row is 1
+   (C09_auto_correlation_in_unit_interval, second part), up to the binary32 slack *)
+Definition rows_eqb (a b : list N) : bool := list_same N.eqb a b.
+Definition periodic_b (m : list (list N)) (delay : nat) : bool :=
+  forallb (fun i => match nth_error m (i + delay), nth_error m i with
+                    | Some a, Some b => rows_eqb a b
+                    | _, _ => false
+                    end) (seq 0 (length m - delay)).
+Definition no_zero_row (m : list (list N)) : bool :=
+  forallb (fun r => existsb (fun c => negb (c =? 0)%N) r) m.
+Definition check_auto_periodic (slack : Q) (m : list (list N)) (delay : nat) (c : F32.t) : bool :=
+  if (delay <? length m) && periodic_b m delay && no_zero_row m
+  then match f32_to_Q c with
+       | Some q => Qleb (Qabs (q - 1)) slack
+       | None => false
+       end
+  else true.
+
+(* exact entropy values (C09_row_entropy_exact_values / _anywhere): a row whose only non-zero
+   cell holds everything has entropy 0, a row with exactly two non-zero cells holding the same
+   count has entropy 1; rows whose u32 sum overflows are exempt *)
+Definition nonzeros (row : list N) : list N := filter (fun c => negb (c =? 0)%N) row.
+Definition check_entropy_exact (slack : Q) (row : list N) (e : F32.t) : bool :=
+  if (fold_left N.add row 0 <? u32_mod)%N then
+    match nonzeros row with
+    | [_] => match f32_to_Q e with Some q => Qleb (Qabs q) slack | None => false end
+    | [a; b] => if (a =? b)%N
+                then match f32_to_Q e with Some q => Qleb (Qabs (q - 1)) slack | None => false end
+                else true
+    | _ => true
+    end
+  else true.
+
+(* ScoringMatrix::information_content against its definition on the observed matrices:
+   sum over the cells with background <> 0 and score <> -inf of frequency * score, the
+   frequency being the one the scores were computed from (2^score * background = frequency).
+   |ic - sum f*s| <= rel * sum |f*s| + tiny; skipped when a value involved is NaN / +-inf
+   (other than the -inf scores the code skips) or a frequency is negative *)
+Definition sic_terms_row (f s bg : list F32.t) : option (list Q) :=
+  all_some (map3 (fun x y b =>
+                    if F32.eq b F32.zero || f32_same y F32.ninf then Some 0%Q
+                    else match f32_to_Q x, f32_to_Q y with
+                         | Some qx, Some qy => if Qleb 0 qx then Some (qx * qy)%Q else None
+                         | _, _ => None
+                         end) f s bg).
+Definition check_sic (rel tiny : Q) (bg : list F32.t) (fq sm : list (list F32.t)) (ic : F32.t) : bool :=
+  match all_some (map2 (fun f s => sic_terms_row f s bg) fq sm), f32_to_Q ic with
+  | Some rows, Some q =>
+      let terms := concat rows in
+      Qleb (Qabs (q - Qsum terms)) (rel * Qsum (map Qabs terms) + tiny)
+  | None, _ => true          (* ill-conditioned input *)
+  | Some _, None => true     (* non-finite result: compared with the model only *)
+  end.
